@@ -485,6 +485,25 @@ def _zero_means_none(p, r):
     return None, "result %s is not derived from a zero test of the selected factor" % r
 
 USE_CLOSED = r"^MarketConfig::use_market_closed_params\(self, %s\)$"
+ENABLE_FLAG = "MarketConfig::flag(self, MarketConfigFlag::EnableMarketClosedParams{})"
+
+
+def _closed_on_path(p, cparam):
+    """Decision `closed-market parameters apply` on a path: the helper call `use_market_closed_params(self, P)` or the
+    same conjunction written inline, `P && self.flag(EnableMarketClosedParams)` (directly or through a local).
+    Returns (True/False/None, 'helper'|'inline'|None)."""
+    t = H.truth_on_path(p, USE_CLOSED % re.escape(cparam))
+    if t is not None:
+        return t, "helper"
+    c = H.truth_on_path(p, r"^%s$" % re.escape(cparam))
+    if c is None:
+        return None, None
+    if c is False:
+        return False, "inline"
+    fl = H.truth_on_path(p, "^" + re.escape(ENABLE_FLAG) + "$")
+    if fl is None:
+        return None, None
+    return fl, "inline"
 
 
 def _closed(ctx, prog, side, adt_re):
@@ -494,19 +513,19 @@ def _closed(ctx, prog, side, adt_re):
     fns = {f.name: f for f in H.impl_fns(prog, adt.id) if not f.trait_item}
     n = 0
     f = fns.get("use_market_closed_params")
-    if f is None:
-        ctx.ob("anchor-missing:fn:%s:use_market_closed_params" % side, False, "missing", where="(anchor)")
-        return 0
-    ctx.analysed_fns.add(f.id)
-    cp = f.param_name(1)
-    tab = {}
-    for p in H.paths(f):
-        t = H.truth_on_path(p, r"^%s$" % re.escape(cp))
-        tab[t] = str(p["ret"])
+    helper = f is not None
     n += 1
-    ctx.ob("closed-switch:%s:use_market_closed_params" % side,
-           tab.get(False) == "false" and tab.get(True) == "MarketConfig::flag(self, MarketConfigFlag::EnableMarketClosedParams{})" and set(tab) == {True, False},
-           "%s: !closed -> %s, closed -> %s" % (f.short, tab.get(False), tab.get(True)), where=f.where())
+    inline_used = []
+    if helper:
+        ctx.analysed_fns.add(f.id)
+        cp = f.param_name(1)
+        tab = {}
+        for p in H.paths(f):
+            t = H.truth_on_path(p, r"^%s$" % re.escape(cp))
+            tab.setdefault(t, set()).add(str(p["ret"]))
+        ctx.ob("closed-switch:%s:use_market_closed_params" % side,
+               tab.get(False) == {"false"} and tab.get(True) == {ENABLE_FLAG} and set(tab) == {True, False},
+               "%s: !closed -> %s, closed -> %s" % (f.short, sorted(tab.get(False, [])), sorted(tab.get(True, []))), where=f.where())
     for nm in ("min_collateral_factor_for_liquidation", "skip_borrowing_fee_for_smaller_side", "borrowing_fee_base_factor",
                "borrowing_fee_above_optimal_usage_factor"):
         f = fns.get(nm)
@@ -521,10 +540,12 @@ def _closed(ctx, prog, side, adt_re):
         bad = []
         cells = set()
         for p in H.paths(f):
-            closed = H.truth_on_path(p, USE_CLOSED % re.escape(cparam[0])) if cparam else None
+            closed, how = _closed_on_path(p, cparam[0]) if cparam else (None, None)
             if closed is None:
-                bad.append("path without a decision on use_market_closed_params(%s)" % (cparam[0] if cparam else "?"))
+                bad.append("path without a decision on closed && EnableMarketClosedParams (helper or inline) for `%s`" % (cparam[0] if cparam else "?"))
                 continue
+            if how == "inline":
+                inline_used.append(nm)
             sd = H.truth_on_path(p, r"^%s$" % re.escape(sparam[0])) if sparam else None
             r = p["ret"]
             inner = H.unwrap_ok(r)
@@ -553,4 +574,8 @@ def _closed(ctx, prog, side, adt_re):
         ctx.ob("closed-switch:%s:%s" % (side, nm), not bad and need <= cells,
                "%s: closed -> market_closed_%s, open -> %s%s; cells %s%s" % (
                    f.short, nm, nm, "_for_{long,short}" if sparam else "", sorted(cells, key=str), "; BAD: " + "; ".join(bad) if bad else ""), where=f.where())
+    if not helper:
+        ctx.ob("closed-switch:%s:use_market_closed_params" % side, len(set(inline_used)) == 4,
+               "no use_market_closed_params helper: the conjunction is written inline in %s (need all 4 accessors)" % sorted(set(inline_used)),
+               where="%s:%d" % (adt.file, adt.line))
     return n
